@@ -113,6 +113,8 @@ type Options struct {
 	// ParamLenLB: assumed lower bounds of len(param i) at entry (checked at call sites by the caller)
 	ParamLenLB map[int]int64
 	Index      bool // generate index/slice obligations
+	// AtCall is invoked in the final pass for every static call to a module function.
+	AtCall func(a *Analyzer, d *DBM, call *ssa.Call)
 }
 
 type Analyzer struct {
@@ -344,7 +346,7 @@ func exactConst(d *DBM, t term) (int64, bool) {
 
 // Analyze runs the analysis of one function.
 func (p *Program) Analyze(fn *ssa.Function, opt Options) *Analyzer {
-	a := &Analyzer{P: p, Fn: fn, Opt: opt}
+	a := &Analyzer{P: p, Fn: fn, Opt: opt, AtCall: opt.AtCall}
 	a.run()
 	return a
 }
